@@ -1178,7 +1178,9 @@ def _op_legal(ctx, o):
             if solved == 0 and "get_netlist" not in repr(e):
                 ctx.probe("legal_solve_failed_" + type(e).__name__)
                 return "skipped(solver failed: %s)" % type(e).__name__
-            ctx.v("document rejected by its reader", dict(key, exc=type(e).__name__, after="solve"), {"exc": repr(e)[:300]})
+            multi = any(m.is_hard and m.num_rectangles >= 2 for m in net.modules)
+            ctx.v("document rejected by its reader", dict(key, exc=type(e).__name__, after="solve", hard_multi_rect=multi),
+                  {"exc": repr(e)[:300]})
             return "rejected"
         ctx.probe("legal_model_solved")
     ctx.docs += 1
